@@ -1,5 +1,5 @@
 """C07 - grouping, aggregates and duplicate elimination are exact per group."""
-import vlib, rel
+import vlib, rel, scale
 
 CFGS = [{"partitions": 1}, {"partitions": 3, "batch_size": 2, "_chunk": 2, "threads": 4},
         {"partitions": 8, "threads": 8}, {"partitions": 2, "batch_size": 3, "_chunk": 3, "optimizer": False},
@@ -32,6 +32,7 @@ def run(tier):
         dbs_fn=lambda tables, rng: rel.pick_dbs(tables, rng, 8 if tier == "quick" else 40),
         cfgs_fn=lambda rng: CFGS,
         extra_items=big_inputs,
+        post=lambda rep, run_: scale.run(rep, tier, ["groupby", "distinct", "union", "countd"], "C07"),
         rule=("GenAgg.tla queries (every aggregate x DISTINCT/FILTER modifier x ungrouped / 1-2 keys / expression key / "
               "empty input / HAVING / ROLLUP / CUBE with GROUPING() / DISTINCT / UNION) x corner-case and seeded "
               "databases x partition / batch / schedule configurations, plus formula-built inputs with > 512 groups, "
